@@ -36,6 +36,10 @@ ValTexts == { <<49, 50, 65, 66>>, <<32, 45, 51, 46, 53, 69, 49, 88>>, <<38, 72, 
               <<51, 50, 55, 54, 56>>, <<65, 49>>, <<38, 72>>, <<38, 72, 68>>, <<38, 104, 49, 100>>, <<38, 72, 68, 69>>, <<49, 50, 51, 52, 53, 54, 55>>, <<48, 46, 49, 50, 53>> }
 StrNums == { MkI(0), MkI(5), MkI(-12), MkI(32767), MkI(-32768), MkF("S", 5, 1), MkF("S", -3, 2), MkF("D", 1, 3), MkF("S", 1234567, 0) }
 
+SmallNums == {0, 1, 2, 3, 4, 5, 6}
+NumVar(v) == [k |-> "var", l |-> "V", id |-> "V", sfx |-> CASE v.t = "I" -> "%" [] v.t = "S" -> "!" [] OTHER -> "#"]
+NV == [k |-> "var", l |-> "N", id |-> "N", sfx |-> "%"]
+
 Cases ==
   [k : {"len", "asc"}, s : Strs \cup Longs \cup AscStrs]
   \cup [k : {"chrasc"}, s : AscStrs]
@@ -57,6 +61,19 @@ Cases ==
   \cup [k : {"catlen"}, s : Longs, t : {<<65>>, <<>>}]
   \cup [k : {"cmp"}, op : RelOps, s : Strs, t : Strs]
   \cup [k : {"tm"}, f : {"LEN", "ASC", "LEFT$", "VAL", "STR$", "CHR$", "INSTR"}]
+  \* compositions: several string temporaries on the stack at once, results fed into other operators
+  \cup [k : {"split"}, s : Strs, n : SmallNums]                          \* LEFT$(S,n) + MID$(S,n+1)
+  \cup [k : {"splitr"}, s : Strs, n : SmallNums]                         \* LEN(LEFT$(S,n)) + LEN(RIGHT$(S,LEN(S)-..))
+  \cup [k : {"lr"}, s : Strs, n : SmallNums, p : SmallNums]              \* LEFT$(RIGHT$(S,n),p)
+  \cup [k : {"midcat"}, s : Strs, t : Pats, p : SmallNums \ {0}, n : {0, 1, 3}]  \* MID$(S+T,p,n)
+  \cup [k : {"instrmid"}, s : Strs, t : Pats, p : SmallNums \ {0}]    \* INSTR(MID$(S,p),T)
+  \cup [k : {"ascmid"}, s : Strs, p : SmallNums \ {0}]                 \* ASC(MID$(S,p,1))
+  \cup [k : {"chrs"}, s : Strs, p : SmallNums \ {0}]                   \* CHR$(ASC(MID$(S,p,1)))=MID$(S,p,1)
+  \cup [k : {"lenstring"}, s : Strs \ {<<>>}, n : {0, 1, 3, 255}]       \* LEN(STRING$(n,S)+T)
+  \cup [k : {"valstr"}, v : StrNums]                                    \* VAL(STR$(V))
+  \cup [k : {"valhex"}, n : IntArgs]                                    \* VAL("&H"+HEX$(N%))
+  \cup [k : {"valoct"}, n : IntArgs]                                    \* VAL("&"+OCT$(N%))
+  \cup [k : {"cmpcat"}, op : RelOps, s : Strs, t : Pats]                \* (S+T) op (T+S)
 
 ExprOf(cs) ==
   CASE cs.k = "len" -> Fn("LEN", <<VS>>)
@@ -84,6 +101,19 @@ ExprOf(cs) ==
     [] cs.k = "cat" -> Bin("add", VS, VT)
     [] cs.k = "catlen" -> Fn("LEN", <<Bin("add", VS, VT)>>)
     [] cs.k = "cmp" -> Bin(cs.op, VS, VT)
+    [] cs.k = "split" -> Bin("add", Fn("LEFT$", <<VS, LI(cs.n)>>), Fn("MID$", <<VS, LI(cs.n + 1)>>))
+    [] cs.k = "splitr" -> Bin("add", Fn("LEN", <<Fn("LEFT$", <<VS, LI(cs.n)>>)>>),
+                                     Fn("LEN", <<Fn("RIGHT$", <<VS, Bin("sub", Fn("LEN", <<VS>>), Fn("LEN", <<Fn("LEFT$", <<VS, LI(cs.n)>>)>>))>>)>>))
+    [] cs.k = "lr" -> Fn("LEFT$", <<Fn("RIGHT$", <<VS, LI(cs.n)>>), LI(cs.p)>>)
+    [] cs.k = "midcat" -> Fn("MID$", <<Bin("add", VS, VT), LI(cs.p), LI(cs.n)>>)
+    [] cs.k = "instrmid" -> Fn("INSTR", <<Fn("MID$", <<VS, LI(cs.p)>>), VT>>)
+    [] cs.k = "ascmid" -> Fn("ASC", <<Fn("MID$", <<VS, LI(cs.p), LI(1)>>)>>)
+    [] cs.k = "chrs" -> Bin("eq", Fn("CHR$", <<Fn("ASC", <<Fn("MID$", <<VS, LI(cs.p), LI(1)>>)>>)>>), Fn("MID$", <<VS, LI(cs.p), LI(1)>>))
+    [] cs.k = "lenstring" -> Fn("LEN", <<Bin("add", Fn("STRING$", <<LI(cs.n), VS>>), VS)>>)
+    [] cs.k = "valstr" -> Fn("VAL", <<Fn("STR$", <<NumVar(cs.v)>>)>>)
+    [] cs.k = "valhex" -> Fn("VAL", <<Bin("add", LSt(<<38, 72>>), Fn("HEX$", <<NV>>))>>)
+    [] cs.k = "valoct" -> Fn("VAL", <<Bin("add", LSt(<<38>>), Fn("OCT$", <<NV>>))>>)
+    [] cs.k = "cmpcat" -> Bin(cs.op, Bin("add", VS, VT), Bin("add", VT, VS))
     [] cs.k = "tm" -> (CASE cs.f \in {"LEN", "ASC", "VAL"} -> Fn(cs.f, <<LI(1)>>)
                          [] cs.f = "LEFT$" -> Fn("LEFT$", <<LI(1), LI(1)>>)
                          [] cs.f = "STR$" -> Fn("STR$", <<LSt(<<65>>)>>)
@@ -94,8 +124,8 @@ Bind(l, sfx, v) == [l |-> l, id |-> l, sfx |-> sfx, v |-> v]
 EnvOf(cs) ==
   (IF "s" \in DOMAIN cs THEN <<Bind("S", "$", MkStr(cs.s))>> ELSE <<>>)
   \o (IF "t" \in DOMAIN cs THEN <<Bind("T", "$", MkStr(cs.t))>> ELSE <<>>)
-  \o (IF cs.k = "str" THEN <<Bind("V", CASE cs.v.t = "I" -> "%" [] cs.v.t = "S" -> "!" [] OTHER -> "#", cs.v)>> ELSE <<>>)
-  \o (IF cs.k \in {"hex", "oct"} THEN <<Bind("N", "%", MkI(cs.n))>> ELSE <<>>)
+  \o (IF cs.k \in {"str", "valstr"} THEN <<Bind("V", CASE cs.v.t = "I" -> "%" [] cs.v.t = "S" -> "!" [] OTHER -> "#", cs.v)>> ELSE <<>>)
+  \o (IF cs.k \in {"hex", "oct", "valhex", "valoct"} THEN <<Bind("N", "%", MkI(cs.n))>> ELSE <<>>)
 
 VarsOf(env) == [key \in {Key(env[i].l, env[i].id, env[i].sfx, <<>>) : i \in 1..Len(env)} |->
                   LET i == CHOOSE i \in 1..Len(env) : Key(env[i].l, env[i].id, env[i].sfx, <<>>) = key
@@ -122,6 +152,19 @@ Laws ==
   /\ c.k = "cat" /\ IsStr(x) => x.s = c.s \o c.t
   /\ c.k = "cmp" => x \in {MkI(0), MkI(-1)}
   /\ c.k = "tm" => x = Err(ETypeMismatch)
+  \* laws of the compositions
+  /\ c.k = "split" => x = MkStr(c.s)
+  /\ c.k = "splitr" => x = MkI(Len(c.s))
+  /\ c.k = "lr" => x = MkStr(LET r == SubSeq(c.s, Len(c.s) - Min(c.n, Len(c.s)) + 1, Len(c.s)) IN SubSeq(r, 1, Min(c.p, Len(r))))
+  /\ c.k = "midcat" => x = MkStr(LET u == c.s \o c.t IN IF c.p > Len(u) THEN <<>> ELSE SubSeq(u, c.p, Min(Len(u), c.p + c.n - 1)))
+  /\ c.k = "instrmid" /\ x.t = "I" /\ x.n > 0 => At(c.s, x.n + c.p - 1, c.t)
+  /\ c.k = "ascmid" => IF c.p <= Len(c.s) THEN x.n = c.s[c.p] /\ IsNum(x) ELSE IsErr(x)
+  /\ c.k = "chrs" /\ c.p <= Len(c.s) => x = MkI(-1)
+  /\ c.k = "lenstring" => x = MkI(c.n + Len(c.s))
+  /\ c.k = "valstr" /\ c.v.x /\ c.v.n > -1000000 /\ c.v.n < 1000000 =>   \* (a Single prints 6 digits)
+        IsNum(x) /\ CmpNum(x, c.v) = 0
+  /\ c.k \in {"valhex", "valoct"} /\ c.n >= 0 => x = MkI(c.n)
+  /\ c.k = "cmpcat" => x \in {MkI(0), MkI(-1)}
 
 NonTrivial(cs) == LET x == Expected(cs) IN IsErr(x) \/ (IsStr(x) /\ x.s # <<>>) \/ (x.t = "I" /\ x.n # 0)
 HasP(cs) == cs.k \in {"str", "hex", "oct", "left", "right", "mid2", "mid3", "chr", "string", "spc", "cat"}
